@@ -285,6 +285,15 @@ def _check_attrs(case):
             else:
                 raise Violation("whitelist-proxy-mutable", "inner mapping accepted item assignment")
         require({k: dict(v) for k, v in lw.edge_whitelist.items()} == expect, "readback", "edge_whitelist changed")
+    if wl is not None:
+        # "cannot be changed afterwards": neither through the object nor through the dictionaries passed in
+        for inner in wl.values():
+            inner[T[3]] = T[2]
+            inner.pop(T[0], None)
+        wl[T[2]] = {T[2]: T[2]}
+        now = lw.edge_whitelist
+        require(now is not None and {k: dict(v) for k, v in now.items()} == expect, "rule-attribute-changed",
+                "edge_whitelist changed after the caller mutated the dictionaries it had passed to the constructor")
     nt = wl is not None and len(wl) > 0
     return dict(nt=nt, classes=["attrs"])
 
